@@ -196,7 +196,7 @@ def shard(member, acc):
     xml = M.render(S)
     sch = H.load_schema(xml)
     mid = {"label": list(member[0]), "placement": member[2], "keytype": member[3], "env": member[4],
-           "schema": xml}
+           "depth": member[5], "schema": xml}
     bfs.explore(S, sch, root, member[5], acc, lambda h, t: check_case(S, sch, h, t, acc, mid))
     acc.extra["schemas"] += 1
     return acc
@@ -227,18 +227,22 @@ def run(tier):
 
 def replay(body):
     case = body["case"]
+    m = case["member"]
+    items = M.items_from_labels(m["label"], [dt_menu(dt) for dt in DATATYPES])
+    member = (tuple(m["label"]), items, m["placement"], m["keytype"], m["env"], m["depth"])
+    S, root = build(member)
+    assert M.render(S) == m["schema"], "schema of the replay file cannot be rebuilt"
+    hist = tuple(tuple(e) for e in case["events"])
     rc = 0
     for _ in range(2):
-        sch = H.load_schema(case["member"]["schema"])
+        acc = core.Acc()
+        sch = H.load_schema(m["schema"])
+        check_case(S, sch, hist, case["text"], acc, m)
         obs = H.load(sch, case["text"])
-        got = repr(H.tree(obs[1])) if obs[0] == "ok" else [obs[0], str(obs[1])]
-        print("observed:", got)
-        print("expected:", body["expected"])
-        if body["kind"] == "wrong-value-tree" and got != body["expected"]:
-            rc = 1
-        elif body["kind"] != "wrong-value-tree":
-            acc = core.Acc()
-            from vz.ref.match import decide  # noqa
-            print("(invariant violation kinds are re-checked by running ./check C02)")
+        print("text:\n" + case["text"])
+        print("observed:", repr(H.tree(obs[1])) if obs[0] == "ok" else [obs[0], str(obs[1])])
+        print("reference:", repr(R.decide(S, hist).tree))
+        for v in acc.violations.values():
+            print("REPLAY violation:", v["kind"])
             rc = 1
     return rc
